@@ -36,4 +36,16 @@ func TestOpsChangeBytesAndNestedRewrap(t *testing.T) {
 	if _, ok := Parse([]byte{0x0a, 0x05, 1}); ok {
 		t.Fatal("truncated field parsed")
 	}
+	// unknown group field 5 {varint field 1 = 7, nested group 6 {}} followed by field 2
+	grp := []byte{0x2b, 0x08, 0x07, 0x33, 0x34, 0x2c, 0x12, 0x01, 'x'}
+	fs, ok = Parse(grp)
+	if !ok || len(fs) != 2 || fs[0].Wire != WireStartGroup || fs[0].End != 6 || fs[1].Num != 2 {
+		t.Fatalf("group parse: %+v %v", fs, ok)
+	}
+	if _, ok := Parse([]byte{0x2c}); ok {
+		t.Fatal("top-level end-group parsed")
+	}
+	if _, ok := Parse([]byte{0x2b, 0x08, 0x07}); ok {
+		t.Fatal("unterminated group parsed")
+	}
 }
